@@ -1286,9 +1286,9 @@ func c10e(c *Ctx) {
 	// text statement becomes a program text
 	if pp, top := c.Fn("parser.Parser.ParseProgram"), c.Fn("parser.Parser.parseTopLevelStatement"); pp != nil && top != nil {
 		for _, call := range callsToIn(pp, top) {
-			var kept []*ssa.Store
-			for _, st := range storesToField(pp, "ast", "Program", "TopLevelStatements") {
-				for _, e := range appendElems(st.Val) {
+			var kept []feed
+			for _, st := range fieldFeeds(pp, "ast", "Program", "TopLevelStatements") {
+				for _, e := range appendElems(st.val) {
 					if derivedFrom(e, call.(ssa.Value), 0) {
 						kept = append(kept, st)
 					}
@@ -1299,7 +1299,7 @@ func c10e(c *Ctx) {
 			if ok {
 				rel := c.guardsBeyondErrors(pp, kept[0].Block())
 				base := c.guardsBeyondErrors(pp, call.Block())
-				res := c.term(pp, appendElems(kept[0].Val)[0])
+				res := c.term(pp, appendElems(kept[0].val)[0])
 				want := dnfAndLit(base, "-("+res+" == nil)")
 				ok = dnfEquiv(rel, want)
 				why = "a parsed top-level statement is kept under [" + rel.String() + "], expected exactly when it is not nil [" + want.String() + "]: statements would be dropped depending on what they contain"
@@ -1307,16 +1307,17 @@ func c10e(c *Ctx) {
 			c.Check(ok, "ParseProgram/top-level-kept", c.W.Pos(call.Pos()), "every non-nil top-level statement is appended to the program", why)
 		}
 		nText := 0
-		for _, st := range storesToField(pp, "ast", "Program", "Texts") {
+		for _, st := range fieldFeeds(pp, "ast", "Program", "Texts") {
 			if loopHeaders(pp)[st.Block()] == nil {
 				continue
 			}
 			nText++
-			w, skip := loopSkip(pp, st)
+			w, skip := loopSkip(pp, st.at)
 			c.Check(!skip, "ParseProgram/every-text-statement-kept", c.W.Pos(st.Pos()), "every explicit text statement becomes a program text", "some text statements do not become program texts (an iteration can reach "+c.nearPos(w)+" without the append): a label that commands refer to would not be defined")
 		}
 		c.Check(nText == 1, "ParseProgram/text-statements-loop", c.W.FuncPos(pp), "one loop turns the explicit text statements into program texts", fmt.Sprintf("found %d appends of explicit text statements to program.Texts, expected 1", nText))
 	}
+	ctorCallOK := map[ssa.CallInstruction]bool{}
 	for _, name := range []string{"parser.Parser.parseBlockStatement", "parser.Parser.parseSwitchBlockStatement", "parser.Parser.parsePoryswitchStatements"} {
 		fn := c.Fn(name)
 		if fn == nil {
@@ -1374,6 +1375,35 @@ func c10e(c *Ctx) {
 				}
 			}
 		}
+		// (a list gathered in a local: every value it can hold is the empty list or such an append)
+		accOK := func(v ssa.Value) bool {
+			var leaves []ssa.Value
+			phiLeaves(v, map[ssa.Value]bool{}, &leaves)
+			nApp := 0
+			for _, lf := range leaves {
+				if call, ok := lf.(*ssa.Call); ok && isAppend(call) {
+					nApp++
+					continue
+				}
+				if !emptyListValue(lf) {
+					return false
+				}
+			}
+			return nApp > 0
+		}
+		// ... or handed to a constructor that puts its parameter into the block it makes
+		for _, ci := range callsIn(fn) {
+			g := callee(ci)
+			k := blockCtorParam(c, g)
+			if k < 0 || k >= len(ci.Common().Args) {
+				continue
+			}
+			okArg := accOK(ci.Common().Args[k])
+			ctorCallOK[ci] = okArg
+			if okArg {
+				stored = true
+			}
+		}
 		c.Check(stored, fn.Name()+"/appended-list-is-kept", c.W.FuncPos(fn), "the extended list is stored in the block / returned", "the list extended with the parsed statements is not the one kept")
 		// ... and nothing else ever is: every store to the block's list is the empty list it
 		// starts with or such an append (no pass that rewrites the list afterwards)
@@ -1381,7 +1411,7 @@ func c10e(c *Ctx) {
 			okSt := false
 			if call, ok := st.Val.(*ssa.Call); ok && isAppend(call) {
 				okSt = true
-			} else if emptyListValue(st.Val) {
+			} else if emptyListValue(st.Val) || accOK(st.Val) {
 				okSt = true
 			}
 			c.Check(okSt, fmt.Sprintf("%s/block-list-only-grows-by-parsed-statements#%d", fn.Name(), i), c.W.Pos(st.Pos()), "the block's list is set to the empty list or extended by parsed statements", "the block's statement list is set to "+pretty(c.term(fn, st.Val))+": it must be exactly the statements parsed, in order (a pass that rewrites the list can drop labels and statements that are reachable through a goto)")
@@ -1396,6 +1426,23 @@ func c10e(c *Ctx) {
 		for i, st := range storesToField(g, "ast", "BlockStatement", "Statements") {
 			if emptyListValue(st.Val) {
 				continue
+			}
+			// a constructor: what it stores is what each block parser hands it, judged there
+			if k := blockCtorParam(c, g); k >= 0 {
+				calls := c.W.callsTo(g)
+				okAll := len(calls) > 0
+				for _, ci := range calls {
+					if isTestFunc(c.W, ci.Parent()) {
+						continue
+					}
+					if v, seen := ctorCallOK[ci]; !seen || !v {
+						okAll = false
+					}
+				}
+				if okAll {
+					c.OK(fmt.Sprintf("%s/block-list-stored-elsewhere#%d", g.Name(), i), c.W.Pos(st.Pos()), g.Name()+" stores the list every block parser hands it (judged at the calls)")
+					continue
+				}
 			}
 			c.Bad(fmt.Sprintf("%s/block-list-stored-elsewhere#%d", g.Name(), i), c.W.Pos(st.Pos()), g.Name()+" sets a block's statement list to "+pretty(c.term(g, st.Val))+": the list is built by the block parsers from the statements parsed and by nobody else")
 		}
@@ -1488,4 +1535,36 @@ func (c *Ctx) builtTexts(fn *ssa.Function) []builtText {
 		}
 	}
 	return out
+}
+
+// blockCtorParam: g is a constructor of block statements — the only thing it ever stores into a
+// block's statement list is one of its own parameters; the index of that parameter, else -1.
+func blockCtorParam(c *Ctx, g *ssa.Function) int {
+	if g == nil || !c.W.InRepo(g) || len(g.Blocks) == 0 {
+		return -1
+	}
+	idx := -1
+	for _, st := range storesToField(g, "ast", "BlockStatement", "Statements") {
+		if emptyListValue(st.Val) {
+			continue
+		}
+		par, ok := st.Val.(*ssa.Parameter)
+		if !ok {
+			return -1
+		}
+		if _, own := rootValue(st.Addr).(*ssa.Alloc); !own {
+			return -1
+		}
+		k := -1
+		for i, p := range g.Params {
+			if p == par {
+				k = i
+			}
+		}
+		if k < 0 || (idx >= 0 && idx != k) {
+			return -1
+		}
+		idx = k
+	}
+	return idx
 }
